@@ -1364,3 +1364,31 @@ func VC15AliasedOversize(r *rand.Rand) *VC15Case {
 	c.tag("aliased-oversize")
 	return c
 }
+
+// VC15AddHole appends one record whose library packer advances over rdata octets without
+// writing them (packDataA on a 16-byte non-IPv4 address) to an ordinary message: the
+// record through which whatever a pooled buffer still holds would show on the wire.
+func VC15AddHole(r *rand.Rand, c *VC15Case) {
+	m := c.Msg
+	var rr dns.RR
+	if r.Intn(4) == 0 {
+		rr = &dns.L32{Hdr: dns.RR_Header{Name: VC15Name(r), Rrtype: dns.TypeL32, Class: dns.ClassINET, Ttl: 300, Rdlength: 41000}, Preference: 10, Locator32: vIP(r, 16)}
+	} else {
+		rr = &dns.A{Hdr: dns.RR_Header{Name: VC15Name(r), Rrtype: dns.TypeA, Class: dns.ClassINET, Ttl: 300, Rdlength: 41000}, A: vIP(r, 16)}
+	}
+	switch r.Intn(3) {
+	case 0:
+		m.Answer = append(m.Answer, rr)
+		at := len(m.Answer) - 1
+		c.Clean = append(c.Clean[:at:at], append([]bool{true}, c.Clean[at:]...)...)
+	case 1:
+		m.Ns = append(m.Ns, rr)
+		at := len(m.Answer) + len(m.Ns) - 1
+		c.Clean = append(c.Clean[:at:at], append([]bool{true}, c.Clean[at:]...)...)
+	default:
+		m.Extra = append([]dns.RR{rr}, m.Extra...)
+		at := len(m.Answer) + len(m.Ns)
+		c.Clean = append(c.Clean[:at:at], append([]bool{true}, c.Clean[at:]...)...)
+	}
+	c.tag("hole")
+}
